@@ -84,6 +84,50 @@ func MkdirAll(path string, perm fs.FileMode) error {
 	return os.MkdirAll(path, perm)
 }
 
+// Mkdir, Stat, Lstat, RemoveAll, Rename and ReadFile are not used by the library today; they are shimmed so that a
+// change which starts using them stays under fault injection and (in internal/auditlog) under the scheduler.
+func Mkdir(path string, perm fs.FileMode) error {
+	if err, _ := fault("mkdir", path); err != nil {
+		return err
+	}
+	return os.Mkdir(path, perm)
+}
+
+func Stat(name string) (fs.FileInfo, error) {
+	if err, _ := fault("stat", name); err != nil {
+		return nil, err
+	}
+	return os.Stat(name)
+}
+
+func Lstat(name string) (fs.FileInfo, error) {
+	if err, _ := fault("stat", name); err != nil {
+		return nil, err
+	}
+	return os.Lstat(name)
+}
+
+func RemoveAll(path string) error {
+	if err, _ := fault("remove", path); err != nil {
+		return err
+	}
+	return os.RemoveAll(path)
+}
+
+func Rename(oldpath, newpath string) error {
+	if err, _ := fault("rename", oldpath); err != nil {
+		return err
+	}
+	return os.Rename(oldpath, newpath)
+}
+
+func ReadFile(name string) ([]byte, error) {
+	if err, _ := fault("read", name); err != nil {
+		return nil, err
+	}
+	return os.ReadFile(name)
+}
+
 func (f *File) Write(b []byte) (int, error) {
 	if err, short := fault("write", f.File.Name()); err != nil {
 		if short && len(b) > 1 {
